@@ -622,6 +622,26 @@ def fam_C10_base(seed, n):
         cfg = base_cfg(maxCache=r.choice([-1, -1, 1, 2, 0]), idExpiry=r.choice([MAX, 2 * U, 0, 40 * U]), grace=r.choice([0, 5 * U, 50 * U]),
                        cacheExpiry=r.choice([MAX, 2 * U]), sessionExpiry=r.choice([MAX, MAX, 30 * U, 100 * U]))
         sc = Script()
+        if r.random() < 0.25:
+            # a slow parallel request of the same client: it still carries the session's FIRST id, several id changes back
+            # (all inside one long grace period), changes the id once more - and the process stops inside that change
+            cfg.update(idExpiry=MAX, grace=50 * U, sessionExpiry=MAX)
+            emit_cfg(sc, codec, cfg, None, r)
+            SALT[0] = ".%d" % r.randint(0, 9999)
+            req(sc, 0)
+            sc.add("h set k0 s" + hx("ack0"))
+            for _ in range(r.randint(1, 4)):
+                sc.add(r.choice(["h regen", "h regen", "h login u0 0"]))
+            sc.add("end")
+            req(sc, 1, spec="val:g0", create=0)
+            sc.add(r.choice(["h regen", "h login u1 0", "h login u0 1"]))
+            sc.add("end")
+            sc.add("//FOLLOWUP")
+            req(sc, 1, spec="val:g0", create=0)
+            sc.add("h get k0")
+            sc.add("end")
+            out.append(("C10-%d" % i, sc.text()))
+            continue
         emit_cfg(sc, codec, cfg, None, r)
         SALT[0] = ".%d" % r.randint(0, 9999)
         for c in range(r.randint(1, 2)):
